@@ -210,6 +210,27 @@ done:
 
 /******************************************************************************
  NAME
+    SDIshutdown -- terminate the SD interface
+
+ DESCRIPTION
+    Library termination callback: free the conversion buffers and allow the
+    interface to be initialized (and this callback registered) again.
+
+ RETURNS
+    SUCCEED/FAIL
+
+******************************************************************************/
+static int
+SDIshutdown(void)
+{
+    /* Allow the interface to be initialized again */
+    library_terminate = FALSE;
+
+    return SDPfreebuf();
+} /* end SDIshutdown() */
+
+/******************************************************************************
+ NAME
     SDIstart -- initialize the SD interface
 
  DESCRIPTION
@@ -228,7 +249,7 @@ SDIstart(void)
     library_terminate = TRUE;
 
     /* Install atexit() library cleanup routine */
-    if (HPregister_term_func(&SDPfreebuf) != 0)
+    if (HPregister_term_func(&SDIshutdown) != 0)
         HGOTO_ERROR(DFE_CANTINIT, FAIL);
 
 done:
